@@ -502,6 +502,28 @@ def rule_semicolon(m, rid):
     if not guard_ok:
         r.fail("_next|split-guard", "_next decides whether a line contains ';' on something other than the tokenised line "
                "(item.get_line()): a ';' inside quotes or a directive triggers the split", m.loc(nx))
+    # whether a line is split depends on the item alone (its class, its text, the source form) -- not on how it was obtained
+    r.instances += 1
+    P0 = A.parents(nx.node)
+    foreign = []
+    for n in A.body_nodes(nx.node):
+        if isinstance(n, ast.If) and any(isinstance(x, ast.Compare) and A.const(x.left) == ";" for x in ast.walk(n.test)):
+            tests, x = [n.test], n
+            while x in P0 and P0[x] is not nx.node:
+                p_ = P0[x]
+                if isinstance(p_, ast.If) and x in p_.body:
+                    tests.append(p_.test)
+                x = p_
+            for t in tests:
+                for nm in ast.walk(t):
+                    if isinstance(nm, ast.Name) and nm.id not in ("item", "self", "isinstance", "type", "len") \
+                            and not m.class_of_name(nx, nm.id) and nm.id not in ("Comment", "Line", "CppDirective", "MultiLine"):
+                        foreign.append(nm.id)
+    r.ob(not foreign, "_next: the decision to split at ';' reads only the item, its class and the reader's format")
+    if foreign:
+        r.fail("_next|split-guard|history|%s" % foreign[0], "_next makes the ';' split depend on the local variable `%s`, which is not a property "
+               "of the item but of how the loop got there (e.g. a flag set when an earlier item came from the buffer): a freshly read "
+               "`a = 1; b = 2` line can then be delivered unsplit" % foreign[0], m.loc(nx))
     # directive items are Lines too: the guard must exclude them (a ';' is ordinary text of a '#define')
     r.instances += 1
     line_k = m.key("Line", RF)
@@ -858,6 +880,25 @@ OMP_CONTINUATION_TABLE = [
 ]
 
 
+# several physical lines of one statement (the first line is given as the loop sees it: sentinel already blanked)
+SEQUENCES = [
+    (["x = 1 + &", "  2"], "x = 1 + 2"),
+    (["x = 1 + &", "! c", "  2"], "x = 1 + 2"),
+    (["x = 1 + &", "", "  2"], "x = 1 + 2"),
+    (["x = 1 + &", "! c", "", "  2"], "x = 1 + 2"),
+    (["x = 1 + &", "", "! c", "  & 2 + &", "! d", "", "", "  & 3"], "x = 1 + 2 + 3"),
+    (["integer :: a, b, &", "   ! why", "", "   c"], "integer :: a, b, c"),
+    (["x = 1"], "x = 1"),
+]
+OMP_SEQUENCES = [
+    (["   x = 1 + &", "!$ & 2"], "x = 1 + 2"),
+    (["   x = 1 + &", "!$ & 2 + &", "!$ & 3"], "x = 1 + 2 + 3"),
+    (["   x = 1 + &", "! an ordinary comment", "!$ & 2"], "x = 1 + 2"),
+    (["   x = 1 + &", "", "!$ & 2 + &", "! c", "", "!$ & 3"], "x = 1 + 2 + 3"),
+    (["   x = 1 + &", "!$   2 + &", "!$   3"], "x = 1 + 2 + 3"),
+]
+
+
 def rule_continuation(m, rid, omp=False):
     from sa import pureeval as PE
     import re as _re
@@ -897,6 +938,7 @@ def rule_continuation(m, rid, omp=False):
             r.error("the continuation sentinel pattern (self._re_omp_sentinel_cont) or replace_omp_sentinels was not found (anchor changed)")
             return r
     bad = []
+    seq_bad = []
     try:
         for row in (OMP_CONTINUATION_TABLE if omp else CONTINUATION_TABLE):
             text, first, want_text, want_cont = row[:4]
@@ -927,12 +969,38 @@ def rule_continuation(m, rid, omp=False):
                  if r.obligations % 4 == 0 else None)
             if not ok:
                 bad.append((text, first, got, cont, want_text, want_cont))
+        # whole statements: the loop itself is interpreted over several physical lines (state carried from line to line)
+        for phys, want_stmt in (OMP_SEQUENCES if omp else SEQUENCES):
+            r.instances += 1
+            rest = list(phys[1:])
+            lines = []
+            me = PE.Obj({"linecount": 7, "f2py_comment_lines": [], "comment_item": lambda *a, **k: ("comment",) + a})
+            if omp:
+                me.fields["_re_omp_sentinel_cont"] = omp_rx
+                me.fields["replace_omp_sentinels"] = lambda l_, rx_: ev.run_function(omp_fn.node, [l_, rx_])
+            env = {"line": phys[0], "lines": lines, "lines_append": lines.append,
+                   "get_single_line": lambda *a_, **k_: (rest.pop(0) if rest else None),
+                   "self": me, "endlineno": 0, "startlineno": 0, "had_omp_sentinels": bool(omp), "start_index": 0, "qchar": None,
+                   "handle_inline_comment": lambda l_, n_, q_=None: (l_, q_, False), "put_item": lambda x: None,
+                   "have_comment": False, "label": None, "name": None, "is_f2py_directive": False}
+            ev.stmt(loop, env)
+            got = "".join(lines)
+            ok = " ".join(got.split()) == want_stmt and not rest
+            r.ob(ok, "%r -> %r" % (phys, got))
+            if not ok:
+                seq_bad.append((phys, got, want_stmt, list(rest)))
     except PE.Unsupported as err:
         r.error("get_source_item: cannot interpret the continuation tail statically (%s)" % err)
         return r
     except PE.PyRaise as err:
         r.error("get_source_item: the continuation tail raises %s on a table line" % err.exc_type)
         return r
+    if seq_bad:
+        phys, got, want_stmt, rest = seq_bad[0]
+        r.fail("get_source_item|continuation|sequence", "get_source_item: the physical lines %r are joined to %r%s; they are one statement, %r "
+               "(%d sequences disagree): a comment or blank line between continuation lines, or the state kept from one line to the next, "
+               "cuts the statement short" % (phys, " ".join(got.split()), " leaving %r unread" % rest if rest else "", want_stmt, len(seq_bad)),
+               m.loc(f, loop))
     if bad:
         text, first, got, cont, wt, wc = bad[0]
         r.fail("get_source_item|continuation|%s" % ("first" if first else "cont"),
@@ -1191,4 +1259,24 @@ def rule_fixed_continuation(m, rid):
         row, gt, gc, wt, wc = bad[0]
         r.fail("get_source_item|fixed-continuation|%s" % row[:12], "get_source_item: the fixed-form line %r inside a continued statement contributes %r "
                "and queues the comment %r; expected %r and %r (%d table rows disagree)" % (row, gt, gc, wt, wc, len(bad)), m.loc(f, loop))
+    return r
+
+
+def rule_nested_reader_option(m, rid, option, what):
+    """The reader that FortranReaderBase.next creates for a resolved INCLUDE file is given `option` of the including reader."""
+    r = RuleResult(rid, "the reader created for an included file is given the including reader's `%s`: %s" % (option, what))
+    r.floor = 1
+    nx = reader_func(m, "next")
+    ctor = [c for c in A.calls(nx.node) if A.text(c.func) == "FortranFileReader"]
+    r.instances += 1
+    if len(ctor) != 1:
+        r.error("FortranReaderBase.next: %d constructions of the nested FortranFileReader (anchor changed)" % len(ctor))
+        return r
+    kw = {k.arg: A.text(k.value) for k in ctor[0].keywords}
+    val = kw.get(option)
+    ok = val is not None and option.strip("_") in val and val.startswith("self.")
+    r.ob(ok, "next: FortranFileReader(..., %s=%s)" % (option, val))
+    if not ok:
+        r.fail("next|nested-option|%s" % option, "FortranReaderBase.next creates the reader of an included file %s: %s"
+               % ("with %s=%s" % (option, val) if val is not None else "without passing %s" % option, what), m.loc(nx, ctor[0]))
     return r
